@@ -115,6 +115,11 @@ def kQuery {F : Type} [FloatLike F] (e : KEnt F) (impl : Option (List String)) :
       | some m =>
         let err := (ratToFloat (m - e.exact) 1 (-1074)).abs
         let bound := (e.eb + 8.0 * u * e.tb) * 1.000001 + Float.scaleB 1.0 (-1000)
+        -- the property as stated: a small constant multiple of u·Σ|x| whatever the merge tree
+        let literal := (64.0 * u + 12.0 * Float.ofNat e.steps * u * u) * e.sumAbs * 1.000001 + Float.scaleB 1.0 (-1000)
+        if err ≤ bound && err > literal then
+          (toks, [s!"tree-shape:error({err})>({literal})=(64u+12·steps·u²)·Σ|x|-though-within-the-theorem's-bound({bound});rdepth={e.rdepth}"], 0)
+        else
         if err ≤ bound then (toks, [], 0)
         else (toks, [s!"error({err})>bound({bound})=(Eb+8u·Tb);ΣabsX={e.sumAbs};steps={e.steps};rdepth={e.rdepth}"], 0)
     | none => (toks, ["malformed-value"], 0)
@@ -145,6 +150,10 @@ partial def kInterp {F : Type} [FloatLike F] [Widen F Float] (toks : List String
       match st.stack with
       | e :: es => kInterp rest impl { st with stack := e :: e :: es }
       | [] => none
+  | "s" :: rest =>
+      match st.stack with
+      | a :: b :: es => kInterp rest impl { st with stack := b :: a :: es }
+      | _ => none
   | "m" :: rest | "p" :: rest =>
       match st.stack with
       | r :: l :: es => kInterp rest impl { st with stack := l.merge r :: es }
@@ -166,8 +175,85 @@ def kahanOp {F : Type} [FloatLike F] [Widen F Float] (args : List String) : Opti
       | some r => { model := joinBar r.out, prop := r.prop, skipped := r.skipped }
       | none => { model := [.s "malformed-program"] } }
 
+/-! `Arithmetic` histories: the two registers (Σx and Σx²) side by side -/
+
+structure AEnt (F : Type) where
+  s1 : KEnt F
+  s2 : KEnt F
+
+structure ARun (F : Type) where
+  stack : List (AEnt F)
+  out : List (List Tok)
+  prop : List String
+  skipped : Nat
+
+def AEnt.add {F : Type} [FloatLike F] (e : AEnt F) (x : F) : AEnt F := ⟨e.s1.add x, e.s2.add (NumOps.mul x x)⟩
+
+def genFeedA {F : Type} [FloatLike F] [Widen F Float] (e : AEnt F) (g : SeqGen) : Nat → AEnt F
+  | 0 => e
+  | n + 1 =>
+    let (x, g') := g.next
+    genFeedA (e.add (Widen.down x : F)) g' n
+
+partial def aInterp {F : Type} [FloatLike F] [Widen F Float] (toks : List String) (impl : List (List String))
+    (st : ARun F) : Option (ARun F) :=
+  match toks with
+  | [] => some st
+  | "E" :: rest => aInterp rest impl { st with stack := ⟨KEnt.empty, KEnt.empty⟩ :: st.stack }
+  | "a" :: x :: rest => do
+      let x ← Codec.dec (α := F) x
+      match st.stack with
+      | e :: es => aInterp rest impl { st with stack := e.add x :: es }
+      | [] => none
+  | "x" :: n :: rest => do
+      let n ← parseNat? n
+      let xs ← (rest.take n).mapM (Codec.dec (α := F))
+      match st.stack with
+      | e :: es => aInterp (rest.drop n) impl { st with stack := xs.foldl AEnt.add e :: es }
+      | [] => none
+  | "G" :: id :: seed :: param :: n :: _batch :: rest => do
+      -- `extend` is a sequence of appends whatever the batch size
+      let id ← parseNat? id; let seed ← parseNat? seed; let param ← parseF64? param; let n ← parseNat? n
+      match st.stack with
+      | e :: es => aInterp rest impl { st with stack := genFeedA e (SeqGen.new id seed.toUInt64 param) n :: es }
+      | [] => none
+  | "d" :: rest =>
+      match st.stack with
+      | e :: es => aInterp rest impl { st with stack := e :: e :: es }
+      | [] => none
+  | "s" :: rest =>
+      match st.stack with
+      | a :: b :: es => aInterp rest impl { st with stack := b :: a :: es }
+      | _ => none
+  | "m" :: rest | "p" :: rest =>
+      match st.stack with
+      | r :: l :: es => aInterp rest impl { st with stack := ⟨l.s1.merge r.s1, l.s2.merge r.s2⟩ :: es }
+      | _ => none
+  | "q" :: rest =>
+      match st.stack with
+      | e :: _ =>
+        let g := impl.head?
+        let (t1, c1, k1) := kQuery e.s1 (g.map (·.take 3))
+        let (t2, c2, k2) := kQuery e.s2 (g.map (·.drop 3))
+        let p1 := c1.map fun m => "sum:" ++ m
+        let p2 := c2.map fun m => "sum_sq:" ++ m
+        let st' : ARun F := ⟨st.stack, st.out ++ [t1 ++ t2], st.prop ++ p1 ++ p2, st.skipped + k1 + k2⟩
+        aInterp rest (impl.drop 1) st'
+      | [] => none
+  | _ => none
+
+/-- `kahanA F <program> => s c v s2 c2 v2 | …` -/
+def kahanAOp {F : Type} [FloatLike F] [Widen F Float] (args : List String) : Option OpEval :=
+  some {
+    run := fun _ impl =>
+      match aInterp (F := F) args impl ⟨[], [], [], 0⟩ with
+      | some r => { model := joinBar r.out, prop := r.prop, skipped := r.skipped }
+      | none => { model := [.s "malformed-program"] } }
+
 def progOp (op ty : String) (args : List String) : Option OpEval :=
   match op, ty with
+  | "kahanA", "f" => kahanAOp (F := Float) args
+  | "kahanA", "g" => kahanAOp (F := Float32) args
   | "kahan", "f" => kahanOp (F := Float) args
   | "kahan", "g" => kahanOp (F := Float32) args
   | _, _ => none
